@@ -89,11 +89,11 @@ CHECKS["C02"] = {
 }
 CHECKS["C03"] = {
     "families": ["bz", "bzr", "bzst", "bzw"],
-    "trusted_base": [BZSPEC, "no Go-shaped model of bzip2.Reader's control flow: its stages are modelled one by one (bzst), the whole reader is compared with the specification (bz)"],
-    "assumptions": ["SA-IS / inverse BWT pointer chasing are modelled at the level of their results"],
-    "level_text": "partial: Lean theorems on the format specification and the stage models - C03_concatenated (complete streams back to back decode to the concatenation), C03_prefix_agrees (any cut of an accepted input: only a prefix, unexpected EOF or success exactly at a stream end, never corrupt/deprecated), C03_bwt_inverse, C03_mtf_roundtrip, C03_rle1_resumable (any Read schedule), C03_crc. bzip2.Reader = specification is a correspondence (Go reader vs Lean specification vs libbzip2 on synthesised streams incl. 20-bit codes, concatenations, deprecated headers and mutations), not a refinement proof.",
-    "level_note": "Trusted: Lean kernel; libbzip2 via cgo is the reference of the sweep. Defect found and repaired: D4 (Reset kept the half-read block).",
-    "explanation": "specification theorems + 3-way differential",
+    "trusted_base": [BZSPEC, "Bzip2.Impl is a hand-written Go-shaped model of bzip2/reader.go and the reading half of bzip2/prefix.go (Read loop, err latch, chunk closure, ReadPrefixCodes with both table paths, Decoder.Init tables, MTF/BWT/RLE1 stages), tied to /repo by per-Read correspondence (family bzr: bytes of every Read, InputOffset and OutputOffset after it, final class, several schedules per input); createTables inside handleDegenerateCodes is represented by the specification's mkCTab (both are line-by-line ports of BZ2_hbCreateDecodeTables)"],
+    "assumptions": ["the source delivers the bytes it has and makes every remaining byte available (failing sources: C09; bit reader over every source shape: C10/C11/C20); inputs of the bzr correspondence are capped at 12000 input / 30000 decoded bytes and slow (under-subscribed) trees are sampled in the quick tier, the specification is compared on all"],
+    "level_text": "full on the model: Lean theorem C03_refines_spec - for every byte string and every schedule of Read buffer lengths (zeros included) the Go-shaped model of bzip2.Reader delivers a prefix of the format specification's output, returns an error only after all of it, ends with io.EOF exactly when the specification accepts (C03_success_iff), with deprecated exactly when the specification meets a bzip1 header or a randomised block, with unexpected EOF only where the specification runs out of input, and calls corrupted whatever the specification calls corrupt; the one permitted class disagreement (DESIGN.md: an unassigned code word of a damaged prefix code cut short - Go says corrupted, libbzip2-style decoding unexpected EOF) is explicit in the statement. No hypothesis: the decode tables built by GeneratePrefixes + Decoder.Init (Kraft-equal vectors) and by handleDegenerateCodes + Decoder.Init (under-/over-subscribed vectors) are proved to decode every bit string as libbzip2's limit/base/perm tables. C03_sticky_error, C03_schedule_independent, C03_reject_stable (the model is prefix-monotone: a corrupted/deprecated behaviour survives every extension of the input) and C03_cut_model (any cut of an accepted stream, any schedule: only a prefix is delivered and the only errors are unexpected EOF, or io.EOF at the end of one of the concatenated streams - never corrupted or deprecated), plus the specification theorems C03_concatenated, C03_prefix_agrees, C03_bwt_inverse, C03_mtf_roundtrip, C03_rle1_resumable, C03_crc.",
+    "level_note": "Trusted: Lean kernel (propext, Classical.choice, Quot.sound); the reading of the format is mine and is validated against libbzip2 (restarted per stream) and compress/bzip2 on every run; the model is tied to /repo by correspondence (sampling). Defect found and repaired: D4 (Reset kept the half-read block).",
+    "explanation": "refinement theorem Impl -> bzip2 specification + per-Read correspondence + 3-way differential",
 }
 CHECKS["C04"] = {
     "families": ["bzw", "bzst"],
@@ -116,7 +116,7 @@ CHECKS["C09"] = {
     "families": ["fl", "bz", "bzr", "life", "xo", "xk", "brr"],
     "trusted_base": [FLSPEC, BZSPEC, "error-site facts are regenerated from /repo by the go/ast extractor and pinned by theorem (Compress.Facts.Sites)"],
     "assumptions": ["I/O errors passed through verbatim: sweep with failing sources (families bio, life), no theorem"],
-    "level_text": "partial: C09_error_sites_classified (every error site of /repo on a decoding path raises Corrupted/Deprecated or is a listed exception - regenerated on every run), C09_deflate_cut_is_ueof, C09_bzip2_cut_is_ueof and C09_brotli_cut_is_ueof (a valid stream cut at any byte: exactly unexpected EOF / never corrupt, on the three format specifications), C09_flate_classes (flate.Reader model ends with the class matching the specification), C09_xflate_sticky / C09_xflate_close / C09_xflate_seek_keeps / C09_flate_sticky (latched error: no data, same error, Close reports it). Sticky + Close for bzip2/brotli/meta Readers and verbatim I/O errors: sweep (call sequences, truncation at every byte through 11 source kinds, injected source errors at every position incl. a source that fails instead of reporting io.EOF, xflate streams with a damaged chunk).",
+    "level_text": "partial: C09_error_sites_classified (every error site of /repo on a decoding path raises Corrupted/Deprecated or is a listed exception - regenerated on every run), C09_deflate_cut_is_ueof, C09_bzip2_cut_is_ueof and C09_brotli_cut_is_ueof (a valid stream cut at any byte: exactly unexpected EOF / never corrupt, on the three format specifications), C09_flate_classes (flate.Reader model ends with the class matching the specification), C09_xflate_sticky / C09_xflate_close / C09_xflate_seek_keeps / C09_flate_sticky (latched error: no data, same error, Close reports it). bzip2.Reader model: C03_sticky_error and the class clauses of C03_refines_spec (family bzr). Close for bzip2 and sticky + Close for brotli/meta Readers and verbatim I/O errors: sweep (call sequences, truncation at every byte through 11 source kinds, injected source errors at every position incl. a source that fails instead of reporting io.EOF, xflate streams with a damaged chunk).",
     "level_note": "Trusted: Lean kernel; extractor (go/ast) for the facts; sweep = sampling.",
     "explanation": "regenerated error-site facts + cut theorems + sticky lemmas + fault sweep",
 }
@@ -124,7 +124,7 @@ CHECKS["C10"] = {
     "families": ["bio", "fl", "brd", "brr", "bz", "bzr", "meta", "life"],
     "trusted_base": ["bit reader model (both source modes, adversarial Buffered()) tied to /repo by scripted correspondence (family bio)"],
     "assumptions": ["Buffered() answers are stable between Peek/Discard/Read (a source that shrinks them is outside the BufferedReader contract)"],
-    "level_text": "partial: C10_flate_read_sizes (any two Read schedules, zeros included: same bytes, same final error), C10_source_shape (ReadByte-only vs Peek/Discard with any Buffered() adversary: same fields = the plain bit list), C10_bzip2_read_sizes (resumable RLE1 for every schedule), C10_xflate_any_fragmentation (C07 for every inflater behaviour). Whole-reader independence for bzip2, brotli, flate and meta: sweep over 11 source kinds (with and without bytes after the stream) and Read-size schedules with zero-length buffers.",
+    "level_text": "partial: C10_flate_read_sizes (any two Read schedules, zeros included: same bytes, same final error), C10_source_shape (ReadByte-only vs Peek/Discard with any Buffered() adversary: same fields = the plain bit list), C10_bzip2_read_sizes (resumable RLE1 for every schedule), C10_xflate_any_fragmentation (C07 for every inflater behaviour). bzip2.Reader model: C03_schedule_independent (any two schedules, zeros included; family bzr). Whole-reader independence over source shapes for bzip2, and for brotli, flate and meta: sweep over 11 source kinds (with and without bytes after the stream) and Read-size schedules with zero-length buffers.",
     "level_note": "Trusted: Lean kernel; correspondence of the bit reader scripts; sweep = sampling.",
     "explanation": "schedule-independence theorems + source-shape sweep",
 }
